@@ -15,6 +15,12 @@ pub struct Context {
 }
 
 impl Context {
+    /// Verification hook: depths of the (size, position) context stacks.
+    #[cfg(xml_rs_verif)]
+    pub fn verif_depths(&self) -> (usize, usize) {
+        (self.size.len(), self.position.len())
+    }
+
     pub fn get_position(&self) -> usize {
         *self.position.last().unwrap_or(&0)
     }
